@@ -100,8 +100,8 @@ var profFormat = &Profile{
 
 var profRefCount = &Profile{
 	Name: "C15-refcount", MinOps: 3, MaxOps: 45, NColls: 2, MemPct: 15, Snaps: true, ReopenNoDrop: true, EndOnly: 60,
-	Kinds: []wk{{OpSet, 28}, {OpSetR, 3}, {OpDel, 10}, {OpGetItem, 6}, {OpExist, 2}, {OpMin, 3}, {OpMax, 3}, {OpVisit, 10}, {OpLen, 2}, {OpBlock, 2}, {OpRandom, 2},
-		{OpEvict, 7}, {OpFlush, 9}, {OpReopen, 5}, {OpSnap, 6}, {OpSnapClose, 5}, {OpSetColl, 3}, {OpClose, 1}, {OpBadSet, 1}, {OpRmColl, 2}},
+	Kinds: []wk{{OpSet, 28}, {OpSetR, 3}, {OpDel, 10}, {OpGetItem, 6}, {OpExist, 2}, {OpMin, 3}, {OpMax, 3}, {OpVisit, 14}, {OpLen, 2}, {OpBlock, 2}, {OpRandom, 2},
+		{OpEvict, 8}, {OpFlush, 13}, {OpReopen, 7}, {OpSnap, 6}, {OpSnapClose, 5}, {OpSetColl, 3}, {OpClose, 1}, {OpBadSet, 1}, {OpRmColl, 2}},
 }
 
 var profIter = &Profile{
